@@ -280,7 +280,7 @@ def container_binaries(variant, tool, shards):
     return True, res, ""
 
 
-def run_containers(R, P, what_list, tier, seed, budget):
+def run_containers(R, P, what_list, tier, seed, budget, only_memory=False):
     """runs the container properties `what_list` on all capacities (plain) and the boundary capacities (sanitized)"""
     od = vc.out_dir(P)
     total, nontriv = 0, 0
@@ -352,7 +352,9 @@ def run_containers(R, P, what_list, tier, seed, budget):
                             rc2, o2 = vc.run([exe, "replay", what, st["replay"]], env=env, timeout=60)
                             if rc2 != 1:
                                 good = False
-                        if good:
+                        if only_memory and not any(k in st.get("message", "") for k in ("outside", "misaligned")):
+                            R.inconclusive.append("container model mismatch (owned by C10/C13/C20, not a memory-safety report): " + st.get("message", "")[:160])
+                        elif good:
                             R.violation(st["replay"], "%s  [%s, %s header, %s build, capacities %d..%d; shrunk by rapidcheck, reproduced 3/3; replay with: %s replay %s %s]" % (st.get("message", ""), what, variant, tool, lo, hi, exe, what, st["replay"]))
                         else:
                             R.inconclusive.append("container failure did not reproduce: " + st["replay"])
@@ -440,6 +442,29 @@ def c20(tier, seed):
 
 CHECKS[13] = c13
 CHECKS[20] = c20
+
+
+def c18_extra(R, tier, seed):
+    # the containers under the sanitizers, every capacity boundary: only memory-safety reports count here
+    return run_containers(R, "C18", ["bitarray", "static", "dynamic", "tasklist", "stream"], tier, seed, 100000 if tier == "quick" else 1500000, only_memory=True)
+
+
+def c14_zoo(R, tier, seed):
+    """zoo part of C14: access<T>() is the object whose callbacks run, for every callback kind incl. plan outcomes and injections"""
+    n = 14
+    for variant in ("shipped", "dev"):
+        ok, exe = vc.zoo_binary("ALL", variant, "gcc")
+        if not ok:
+            print("INCONCLUSIVE: zoo harness does not build:", exe)
+            return 2
+        for i, prof in enumerate(["plans", "general"]):
+            stats, failures, crashes = vc.run_pbt(exe, n, prof, 100000 if tier == "quick" else 1500000, 30, seed * 5 + i, vc.NCPU // 2, None, tag="%s-" % variant)
+            R.add_stats("rapidcheck:zoo:%s:%s" % (variant, prof), stats)
+            for path, msg in failures:
+                okc, out = vc.confirm(exe, n, path)
+                if okc:
+                    R.violation(path, "%s  [zoo harness, %s header, profile %s; shrunk by rapidcheck, reproduced 3/3]" % (msg, variant, prof))
+    return 0
 
 
 def c10_extra(R, tier, seed):
@@ -538,9 +563,11 @@ def c14(tier, seed):
             R.violation(wp, "N=%d head=%d (%s header): %s  [replay: %s walk %s]" % (n, head, variant, out.strip()[:400], bins[(n, head, variant)], wp))
         else:
             visited += n
-    R.coverage["evaluations"] = steps_total
-    R.coverage["distinct_nontrivial"] = visited
-    R.coverage["samples"] = ["N=%d head=%d header=%s walk (first 12 ops): %s" % (m[0], m[1], m[2], " ; ".join(open(m[3]).read().splitlines()[:12])) for m in metas[:3]]
+    if not R.violations and c14_zoo(R, tier, seed) == 2:
+        return 2
+    R.coverage["evaluations"] += steps_total
+    R.coverage["distinct_nontrivial"] += visited
+    R.coverage["samples"] = R.coverage["samples"][:2] + ["N=%d head=%d header=%s walk (first 12 ops): %s" % (m[0], m[1], m[2], " ; ".join(open(m[3]).read().splitlines()[:12])) for m in metas[:3]]
     R.coverage["engines"]["sizes_walks"] = {"machines": len(plan), "state_counts": sorted(set(p[0] for p in plan)), "walk_steps": steps_total, "(N,k)_pairs_visited": visited}
     return R.finish("for each machine size N (thorough: every N in 1..255; quick: the boundary set %s plus seed-chosen extras), with and without a root head, both header variants alternating: compile-time stateId<St<I>>() == I for all I; "
                     "a seed-generated walk visits every k < N (random order, interleaved update/react/query/re-entry/exit+enter) and after each step checks that only St<k> (and the state just left) ran callbacks, activeStateId()==k, "
